@@ -1,6 +1,8 @@
 (* Properties_C12.v — property C12: claims of a constant outcome are true of the analysed code.
    Statements only; each is closed by [exact]. *)
 From GC Require Import Base Model_Expr Model_BoolSimp Model_Claims Proofs_Expr Proofs_BoolSimp Proofs_Claims.
+From Coq Require Import QArith.
+Close Scope Q_scope.
 Open Scope string_scope.
 
 (* sloppyLen: `len(x) >= 0` is always true, `len(x) < 0` always false — for the call that resolves to the
@@ -124,3 +126,23 @@ Theorem C12_off_by1_shadowed_refuted :
     eval en e = Some (RVal (VInt 3), [Ev "len" [VInts [3; 1]%Z] (VInt 0)]).
 Proof. exact off_by1_shadowed_refuted. Qed.
 Print Assumptions C12_off_by1_shadowed_refuted.
+
+(* round-4 findings *)
+(* dupSubExpr exempts == != <= >= only for operands whose go/types type is a predeclared float: on defined float
+   types, type parameters and complex operands the NaN tests are reported although they are not constant *)
+Theorem C12_self_comparison_float_not_constant :
+  cmp_val ONe (VFloat FNaN) (VFloat FNaN) = Some true /\ cmp_val ONe (VFloat (FFin (Qmake 1 1))) (VFloat (FFin (Qmake 1 1))) = Some false /\
+  cmp_val OLe (VFloat FNaN) (VFloat FNaN) = Some false /\ cmp_val OLe (VFloat (FFin (Qmake 1 1))) (VFloat (FFin (Qmake 1 1))) = Some true.
+Proof. exact self_comparison_float_not_constant. Qed.
+Print Assumptions C12_self_comparison_float_not_constant.
+
+Theorem C12_self_comparison_constant_non_float : forall o v c,
+  vty v <> TFloat -> cmp_val o v v = Some c -> c = match o with OEq | OLe | OGe => true | _ => false end.
+Proof. exact self_comparison_constant_non_float. Qed.
+Print Assumptions C12_self_comparison_constant_non_float.
+
+Theorem C12_case_order_type_parameter_refuted :
+  exists impl es_checker es_run i j, In (i, j) (case_order impl es_checker) /\
+    first_match impl es_run (DType 8%N) 0 = Some i.
+Proof. exact case_order_type_parameter_refuted. Qed.
+Print Assumptions C12_case_order_type_parameter_refuted.
